@@ -23,6 +23,21 @@ theorem wild_spec (ts : List Task) (p : Tok) :
   refine ⟨fun x => ?_, List.filter_sublist⟩
   simp [wild, List.mem_filter, glob_iff]
 
+/-- only `*` makes a task_dep entry a pattern: an entry without `*` — also one containing `?`, `[` or `]`, which are
+    legal in task names — is a literal task name and is kept as it is (no matching is done for it) -/
+theorem literal_dep_kept (ts : List Task) (t : Task) (h : ∀ d ∈ t.taskDep, hasStar d = false) :
+    expandWild ts t = t.taskDep := by
+  unfold expandWild
+  have h1 : t.taskDep.filter (fun d => !hasStar d) = t.taskDep :=
+    List.filter_eq_self.2 (by intro d hd; simp [h d hd])
+  have h2 : t.taskDep.filter hasStar = [] := List.filter_eq_nil_iff.2 (by intro d hd; simp [h d hd])
+  rw [h1, h2]; simp
+
+/-- a dependency on the task literally named `a[1]` reaches `a[1]`, not `a1`; one on `a?` reaches `a?` only -/
+example : closureOf (prepare [{ name := ['u'], taskDep := [['a', '[', '1', ']'], ['a', '?']] }, { name := ['a', '1'] },
+    { name := ['a', '[', '1', ']'] }, { name := ['a', '?'] }]) [['u']] = [['u'], ['a', '[', '1', ']'], ['a', '?']] := by
+  decide
+
 /-! ## `filter_spec` -/
 
 /-- **filter_spec** (full strength since dcfe778): `TaskControl._filter_tasks` selects exactly what the arguments denote
